@@ -2,8 +2,8 @@
 from reg._common import COMMON_ASSUME
 
 ENTRY = {
-    'lean_files': ['Tables/C03.lean', 'Props/C03.lean', 'Props/C03Pipeline.lean', 'Props/C03Coverage.lean'],
-    'lemma_files': ['Lemmas/Coverage.lean', 'Model/Geometric.lean', 'Model/GeometricInst.lean', 'Model/Helpers.lean', 'Model/Newton.lean', 'Model/Locate.lean', 'Lemmas/Pipeline.lean', 'Lemmas/TangentEnds.lean', 'Lemmas/EvalBary.lean', 'Lemmas/Bridge.lean', 'Lemmas/Shift.lean',
+    'lean_files': ['Tables/C03.lean', 'Props/C03.lean', 'Props/C03Pipeline.lean', 'Props/C03Coverage.lean', 'Props/C03Trace.lean'],
+    'lemma_files': ['Model/GeometricTrace.lean', 'Lemmas/Coverage.lean', 'Model/Geometric.lean', 'Model/GeometricInst.lean', 'Model/Helpers.lean', 'Model/Newton.lean', 'Model/Locate.lean', 'Lemmas/Pipeline.lean', 'Lemmas/TangentEnds.lean', 'Lemmas/EvalBary.lean', 'Lemmas/Bridge.lean', 'Lemmas/Shift.lean',
                     'Lemmas/VS.lean', 'Model/Curve.lean', 'Model/Basic.lean'],
     'script': 'props/c03.py',
     'rule': 'cases = (ordered pair of planar control nets, route Curve.intersect | all_intersections), geometric strategy; inputs as '
@@ -14,12 +14,14 @@ ENTRY = {
             'exactly 0/1 or within [2^-16, 1-2^-16]. Required: normal return, columns match the certified roots one to one (root box '
             'inflated by 2^-30). Strictly disjoint control-point boxes => shape (2,0) (both strategies). non-trivial = pair inside the '
             'domain; distinct by hash of exact nets and route',
-    'partial': ['Lean: component theorems only (disjoint boxes => no common point; a coordinate attains the extreme of its control '
-                'values only at end points unless all control values equal it => tangent boxes need end points only; decided '
-                'counterexample showing the side condition is necessary); completeness of the subdivision / linearisation / Newton '
-                'pipeline is not modelled here - see Model/Geometric (later) - so "no crossing is missed" rests on the oracle runs'],
-    'trusted_base': ['harness/isolate.py (exact rational subdivision + Krawczyk certificates; validated against sympy resultants on '
-                     '240 pairs and against the 33 standard cases of curve_intersections.json): the specification of the solution set',
-                     'modelled not verified: bbox_intersect / tangent_bbox_intersection predicates (stated on Model.evalBary / evalPoint)'],
+    'partial': [
+                'proved (Props/C03, C03Pipeline, C03Coverage; any ordered field): disjoint control-point boxes => no common point and the pipeline model returns the empty set (all four linearisation cases); tangent boxes need end points only unless a coordinate is constant (decided counterexample for the side condition = finding F-E); budgets: rounds exhausted => ValueError, candidate budget => coincident_parameters decides, pruning only above the budget; de-duplication sound and complete with the extracted tolerance, distinct roots at distance d are never merged; subdivision covers: every true intersection covered by a candidate pair is covered by one of its four children, the children are faithful restrictions (C04 subdivision theorems); box_disjoint_sound: a candidate pair covering a true intersection is never rejected by the bbox test',
+                'coverage_invariant_partial: the invariant "every true intersection is covered by a live candidate pair or already accumulated" is proved for rounds in which every pair is exact (curve/curve with non-tangent boxes or line/line with disjoint boxes); NOT proved for the three approximate hand-offs - tangent_bbox_intersection, bbox_line_intersect against the chord instead of the curve, from_linearized (Newton from the chord intersection) - each of which is tied to a listed finding (F-E, F-N) showing that it does lose intersections; hence "no crossing is missed" rests on the oracle runs outside those input classes',
+                'exactly-once: proved for the model that a root further than the tolerance from all accumulated ones is appended and one within it is dropped; that Newton started from two different candidate pairs converges to the same root within that tolerance is checked by the oracle only',
+    ],
+    'trusted_base': [
+                'harness/isolate.py (exact rational subdivision + Krawczyk certificates; validated against sympy resultants on 240 pairs and against the 33 standard cases of curve_intersections.json): the specification of the solution set',
+                'modelled, tied by end-to-end correspondence (455/455 quick cases per configuration agree): the whole geometric pipeline, see C02; additionally a step-level tie in the pure configuration: intersect_one_round of the running implementation is wrapped and the candidate list (kind, start, stop of both members, in order) entering every round and the accumulated intersections after it are compared with Model.allIntersectionsTrace (C03.trace_result: its result component is allIntersections); the Fortran pipeline has no such hook and is tied end to end only',
+    ],
     'assumptions': COMMON_ASSUME,
 }
